@@ -41,7 +41,7 @@ fn main() {
         }
         "C14" => {
             let thorough = cli.thorough;
-            parts.push(make_part("proc", "PROC", cli.cases(3_000, 200_000), move || proc14::c14_strategy(thorough), proc14::ChildProc::new, |cp, c| proc14::c14_test(cp, c)));
+            parts.push(make_part("proc", "PROC", cli.cases(2_000, 200_000), move || proc14::c14_strategy(thorough), proc14::ChildProc::new, |cp, c| proc14::c14_test(cp, c)));
             (
                 "cases run in child server processes (one per worker) with a counting allocator and a panic hook: Content-Length up to 10^30 / chunk-size lines of 1-40 hex digits with far fewer bytes sent, 1-20000 headers, single lines of 1 B - 1 MiB (4 MiB thorough) in request line / header name / header value, TE lists with up to 64 elements and q in {NaN, inf, -inf, 1e39, -0, ...}, random byte mutations (NUL, CR, LF, >= 0x80, ...) and truncations of valid requests incl. pipelines/upgrade/expect, reset storms on TCP (request then RST before accept); handler {answer/drop without reading, read some, read all}; oracle: the child survives, no thread panics, the largest single allocation on library threads and inside library calls <= 64 KiB + 64 x bytes the client had sent, a fresh connection is still served; non-trivial: declared length beyond what was sent, >= 64 KiB sent, or a reset storm",
                 vec!["allocation bound: 64 KiB + 64 x bytes sent (a parsed header costs about 50 bytes of bookkeeping for as little as 5 bytes on the wire, and vectors double)", "a child killed by the harness watchdog is inconclusive, a child that dies by itself (abort, signal) is a violation"],
